@@ -10,7 +10,7 @@
       run [] ops       = (how the call ended, table) after every operation of [ops]
       C14_ok           = the monitor the check evaluates on the IMPLEMENTATION's observables *)
 From MWF Require Import Base.Util Dag.DagModel Dag.DagLists Dag.DetectProofs Dag.OpsProofs
-     Dag.BfsProofs Dag.TopoProofs Dag.DfsProofs Dag.MonitorProofs.
+     Dag.BfsProofs Dag.TopoProofs Dag.DfsProofs Dag.MonitorProofs Dag.StepProofs.
 
 (* ---- the cycle detector (core) ------------------------------------------ *)
 
@@ -153,6 +153,47 @@ Theorem C14_model_case_ok : forall n setup (brs : list (list op)),
 Proof. exact monitor_ok_model. Qed.
 Print Assumptions C14_model_case_ok.
 
+(* ---- the DAG API of a Study object: add_step ------------------------------ *)
+
+(** For EVERY sequence of Study.add_step calls (any depends lists: valid,
+    naming the step itself or an unknown step at any position, duplicates) and
+    inherited add_node / add_edge / remove_edge calls on a fresh Study object
+    (its table is born as [_source] alone; [_source] is name [n]), after every
+    call -- returned or raised -- the table is well-formed (every edge ends at
+    a node) and acyclic. *)
+Theorem C14_study_acyclic_always : forall n (ops : list sop),
+  Forall (fun kg : rkind * graph =>
+            wf (snd kg) /\ graph_acyclic (snd kg) /\ fst kg <> KFuel)
+         (srun n (study_start n) ops).
+Proof. exact study_acyclic_always. Qed.
+Print Assumptions C14_study_acyclic_always.
+
+(** a step whose name is taken is rejected and nothing changes *)
+Theorem C14_add_step_taken_unchanged : forall src g x deps,
+  In x (keys g) -> add_step src g x deps = (KValueError, g).
+Proof. exact add_step_taken_unchanged. Qed.
+Print Assumptions C14_add_step_taken_unchanged.
+
+(** otherwise the table after add_step -- returned or raised -- is
+    [expected_step]: the node, and the edges of the dependencies listed before
+    the first one that is the step itself or unknown (or [_source -> step]) *)
+Theorem C14_add_step_expected : forall src g x deps, wf g /\ graph_acyclic g ->
+  snd (add_step src g x deps) = expected_step src g x deps.
+Proof. exact add_step_expected. Qed.
+Print Assumptions C14_add_step_expected.
+
+(** what [C14_study_ok] (the monitor of the Study stream) means on ANY observables *)
+Theorem C14_study_monitor_meaning : forall n src steps g0,
+  C14_study_ok n src g0 steps = true -> ssteps_good n src g0 steps.
+Proof. exact C14_study_ok_sound. Qed.
+Print Assumptions C14_study_monitor_meaning.
+
+(** and the model satisfies it on every sequence *)
+Theorem C14_study_model_ok : forall n (ops : list sop),
+  smonitor_ok (mkSCase n (combine ops (model_strace n n (study_start n) ops))) = true.
+Proof. exact C14_study_ok_model. Qed.
+Print Assumptions C14_study_model_ok.
+
 (* ---- non-vacuity ---------------------------------------------------------- *)
 
 (** a diamond 0 -> {1,2} -> 3 built by the operations *)
@@ -212,4 +253,18 @@ Proof. vm_compute. reflexivity. Qed.
 Example ex_monitor_accepts :
   C14_ok 4 [] (combine (ex_ops ++ [AddEdge 3 0; RemoveEdge 0 1; RemoveEdge 0 1])
                        (model_trace 4 [] (ex_ops ++ [AddEdge 3 0; RemoveEdge 0 1; RemoveEdge 0 1]))) = true.
+Proof. vm_compute. reflexivity. Qed.
+
+(** Study.add_step: step 1 depends on [0; 1] -- the edge 0 -> 1 is made, then
+    the self-dependency raises; node 1 and the edge stay (well-formed); a
+    variant that deleted node 1 but left the edge is rejected by the monitor *)
+Example ex_add_step_self_late :
+  srun 2 (study_start 2) [SAddStep 0 []; SAddStep 1 [0; 1]]
+  = [(KOk, [(2, [0]); (0, [])]); (KValueError, [(2, [0]); (0, [1]); (1, [])])].
+Proof. vm_compute. reflexivity. Qed.
+
+Example ex_study_monitor_rejects_dangling_edge :
+  C14_study_ok 2 2 [(2, [0]); (0, [])]
+    [(SAddStep 1 [0; 1],
+      mkObs [(2, [0]); (0, [1])] [2; 0] 1 9 (TErr 1) [TErr 1; TErr 1] [TErr 1; TErr 1])] = false.
 Proof. vm_compute. reflexivity. Qed.
